@@ -93,7 +93,7 @@ def kinds(case):
 
 
 def run(ctx, out, replay=None):
-    n = 1200 if ctx.quick() else 20000
+    n = 1200 if ctx.quick() else 15000
     out.rule = ("random netlist documents as for C05 (all module kinds and attribute combinations, nets of arity 2-6, "
                 "weights absent / 1 / other), 68% dyadic (model and oracle), 24% decimal multiples of 0.1 (oracle only), "
                 "8% with one injected defect (verdict correspondence); each is loaded, written, reloaded and written again; "
